@@ -333,6 +333,7 @@ def r12_2(prog, rep):
     from ..flow import edge_dominates as _ed
     tvn = lv(strip_casts([l2 for l2, k2, n2 in writes(g.cfg.elem(gb, gi))][0])).split("->")[0]
     gone = set()
+    null_edges = set()
     for q in g.cfg.blocks:
         c_ = g.cfg.cond(q)
         if c_ is None:
@@ -343,8 +344,25 @@ def r12_2(prog, rep):
             if any(a_ in (("false", tvn), ) or (len(a_) == 5 and a_[0] == "==" and {a_[1], a_[2]} == {tvn, "0"}) or a_[:2] == ("false", tvn)
                    for a_ in cond_atoms(c_, si_ == 0)):
                 gone |= {bb for bb in g.cfg.blocks if _ed(g.cfg, q, si_, bb)}
+                null_edges.add((q, si_))
+    # a path that reaches the exit without the decrement must take an edge on which the task is known to be gone (the edge may lead
+    # straight to the common tail, so it is the edges that are taken out, not the blocks behind them)
+    def _skips():
+        seen_, todo_ = {g.cfg.entry}, [g.cfg.entry]
+        while todo_:
+            q_ = todo_.pop()
+            if q_ == g.cfg.exit:
+                return True
+            if q_ == gb:
+                continue
+            for si_, s__ in enumerate(g.cfg.blocks[q_].succs):
+                if s__ is None or si_ in g.cfg.blocks[q_].dead or (q_, si_) in null_edges or s__ in seen_:
+                    continue
+                seen_.add(s__)
+                todo_.append(s__)
+        return False
     if g.cfg.dominates(gb, g.cfg.exit) or all(gb in g.cfg.dom().get(p, ()) for p in g.cfg.lpreds[g.cfg.exit]) or \
-            (gone and not g.cfg.paths_avoiding(g.cfg.entry, g.cfg.exit, gone | {gb})):
+            (gone and not g.cfg.paths_avoiding(g.cfg.entry, g.cfg.exit, gone | {gb})) or (null_edges and not _skips()):
         rep.ok(rid, "%s/dec-unconditional" % g.name, g.loc(gline), "every child exit decrements nsim")
     else:
         rep.fail(rid, "%s/dec-unconditional" % g.name, g.loc(gline), "a path through %s skips the decrement" % g.name)
